@@ -179,34 +179,32 @@ def calculate_first_sets(grammar):
     Calculate first sets for each grammar symbol
     This is a dictionary which maps each grammar symbol
     to a set of terminals that can be encountered first
-    when looking for the symbol.
+    when looking for the symbol. The first set of a symbol
+    that can derive the empty string also contains EPS.
     """
     first = {}
-    nullable = {}
     for terminal in grammar.terminals | {EOF, EPS}:
         first[terminal] = {terminal}
-        nullable[terminal] = False
 
     for nt in grammar.nonterminals:
         first[nt] = set()
-        nullable[nt] = False
 
     while True:
         some_change = False
         for rule in grammar.productions:
-            # Check for null-ability:
-            if all(nullable[beta] for beta in rule.symbols):
-                if not nullable[rule.name]:
-                    nullable[rule.name] = True
-                    some_change = True
-
-            # Update first sets:
+            # First set of the right hand side. Continue with the next
+            # symbol as long as the symbols so far can be empty:
+            rhs_first = set()
             for beta in rule.symbols:
-                if not nullable[beta]:
-                    if first[beta] - first[rule.name]:
-                        first[rule.name] |= first[beta]
-                        some_change = True
+                rhs_first |= first[beta] - {EPS}
+                if EPS not in first[beta]:
                     break
+            else:
+                rhs_first.add(EPS)
+
+            if rhs_first - first[rule.name]:
+                first[rule.name] |= rhs_first
+                some_change = True
         if not some_change:
             break
     return first
@@ -247,11 +245,14 @@ class LrParserBuilder:
                 worklist.append(itm)
 
         def first2(itm):
-            # When using the first sets, create a copy:
-            f = set(self.first[itm.NextNext])
-            if EPS in f:
-                f.discard(EPS)
-                f.add(itm.look_ahead)
+            # First set of the symbols after the next symbol, followed
+            # by the look ahead of the item:
+            f = set()
+            for symbol in itm.production.symbols[itm.dotpos + 1 :]:
+                f |= self.first[symbol] - {EPS}
+                if EPS not in self.first[symbol]:
+                    return f
+            f.add(itm.look_ahead)
             return f
 
         # Start of algorithm:
